@@ -103,6 +103,9 @@ Properties/C13.vos Properties/C13.vok Properties/C13.required_vos: Properties/C1
 AsFound/C13.vo AsFound/C13.glob AsFound/C13.v.beautified AsFound/C13.required_vo: AsFound/C13.v Model/Tracking.vo Proofs/TrackingProof.vo Properties/C13.vo
 AsFound/C13.vio: AsFound/C13.v Model/Tracking.vio Proofs/TrackingProof.vio Properties/C13.vio
 AsFound/C13.vos AsFound/C13.vok AsFound/C13.required_vos: AsFound/C13.v Model/Tracking.vos Proofs/TrackingProof.vos Properties/C13.vos
+AsFound/C12.vo AsFound/C12.glob AsFound/C12.v.beautified AsFound/C12.required_vo: AsFound/C12.v Model/Tracking.vo Proofs/TrackingProof.vo Properties/C12.vo
+AsFound/C12.vio: AsFound/C12.v Model/Tracking.vio Proofs/TrackingProof.vio Properties/C12.vio
+AsFound/C12.vos AsFound/C12.vok AsFound/C12.required_vos: AsFound/C12.v Model/Tracking.vos Proofs/TrackingProof.vos Properties/C12.vos
 Model/CfgFile.vo Model/CfgFile.glob Model/CfgFile.v.beautified Model/CfgFile.required_vo: Model/CfgFile.v 
 Model/CfgFile.vio: Model/CfgFile.v 
 Model/CfgFile.vos Model/CfgFile.vok Model/CfgFile.required_vos: Model/CfgFile.v 
